@@ -400,6 +400,44 @@ def run(ctx):
                 if res == "ok":
                     stored[idd] = (idnt, (name, rate, comment), variant, (fi, enum))
                 hist.append(f"save file{fi} enum{enum} fit{variant}")
+        # several containers in one process: the same raw curve stored with different fits in two containers,
+        # both loaded (results of the first kept while the second is loaded; a folder holding both)
+        two = tdir / "two"
+        two.mkdir()
+        for (fi, enum) in keys[: (2 if ctx.tier == "quick" else len(keys))]:
+            for va, vb in (("A", "B"), ("C", "A")):
+                ha, hb = two / "a.h5", two / "b.h5"
+                for h in (ha, hb):
+                    if h.exists():
+                        h.unlink()
+                new_container(ha)
+                new_container(hb)
+                ia, ib = pool.get(fi, enum, va), pool.get(fi, enum, vb)
+                do_save(ha, ia, 3, "ann", "first", None)
+                do_save(hb, ib, 7, "bob", "second", None)
+                hist2 = [f"container a: file{fi} enum{enum} fit{va}", f"container b: same curve fit{vb}",
+                         "ra = load_hdf5(a); rb = load_hdf5(b); inspect ra"]
+                with warnings.catch_warnings():
+                    warnings.simplefilter("ignore")
+                    try:
+                        ra = rio.load_hdf5(ha)
+                        rb = rio.load_hdf5(hb)
+                        rall = rio.load(two)
+                    except BaseException as e:  # noqa
+                        ctx.violation("two-containers-raise", f"{hist2}: {e!r}", {"history": hist2})
+                        continue
+                ctx.case({"two-containers": [fi, enum, va, vb]}, nontrivial=f"two:{fi}:{enum}:{va}:{vb}",
+                         bucket="stream=two-containers")
+                idd = curve_desc(ia)["idd"]
+                check_roundtrip(ctx, ra, {idd: (ia, ("ann", 3, "first"))}, hist2)
+                check_roundtrip(ctx, rb, {idd: (ib, ("bob", 7, "second"))}, hist2 + ["inspect rb"])
+                if len(rall) != 2:
+                    ctx.violation("folder-load-count", f"load(folder with two containers) returned {len(rall)} "
+                                  "ratings", {"history": hist2})
+                else:
+                    for r in rall:
+                        o_ = (ia, ("ann", 3, "first")) if r["name"] == "ann" else (ib, ("bob", 7, "second"))
+                        check_roundtrip(ctx, [r], {idd: o_}, hist2 + ["load(folder)"])
         # the model replays each history: expand "_restore" (the model state must be the state before
         # the faulted save, i.e. we re-run the history prefix) -> simplest: one driver session per line group
         out = run_model(ctx, lines)
